@@ -188,6 +188,9 @@ def run_chain(arg):
 
 # ------------------------------------------------------------------ generator interleavings
 
+_SHARED = {}
+
+
 def _gen_factories():
     ckk = repo.ckk_mod
     P = repo.prtpy
@@ -200,7 +203,14 @@ def _gen_factories():
     def g_tree2(): return repo.tree_mod.InExclusionBinTree(list(vals), vals.__getitem__, upper_bound=3, lower_bound=1).generate_tree()
     def g_comb1(): return P.BinnerKeepingContents().all_combinations(([1, 1, 2], [[1], [1], [2]]), ([0, 3, 3], [[], [3], [3]]))
     def g_comb2(): return P.BinnerKeepingSums().all_combinations([1, 2, 3], [4, 5, 6])
-    return [("ckk3way", g_ckk1), ("ckk2way-sums", g_ckk2), ("ckk-bounded-named", g_ckk3), ("tree-values", g_tree1),
+    # two enumerations alive at once on ONE bins-manager object (nested loops, zip, a saved generator resumed later)
+    SB = _SHARED.setdefault("sums", P.BinnerKeepingSums())
+    CB = _SHARED.setdefault("contents", P.BinnerKeepingContents())
+    def g_comb3(): return SB.all_combinations([1, 1, 2], [0, 0, 3])
+    def g_comb4(): return SB.all_combinations([1, 1, 5], [0, 0, 7])
+    def g_comb5(): return CB.all_combinations(([1, 1, 2], [[1], [1], [2]]), ([0, 3, 3], [[], [3], [3]]))
+    def g_comb6(): return CB.all_combinations(([2, 2], [[2], [1, 1]]), ([1, 1], [[1], [1]]))
+    return [("comb-sums-shared-a", g_comb3), ("comb-sums-shared-b", g_comb4), ("comb-contents-shared-a", g_comb5), ("comb-contents-shared-b", g_comb6)] + [("ckk3way", g_ckk1), ("ckk2way-sums", g_ckk2), ("ckk-bounded-named", g_ckk3), ("tree-values", g_tree1),
             ("tree-named", g_tree2), ("comb-contents", g_comb1), ("comb-sums", g_comb2)]
 
 
@@ -304,6 +314,10 @@ def grid_families(tier):
                 # a call cut off at once (the limit has passed at the first test: deterministic), then the same call without limit
                 fcb.append({"algo": "cbldm", "items": items, "k": 2, "fmt": fmt, "kw": dict(kwd, time_limit=1e-9)})
                 fcb.append({"algo": "cbldm", "items": items, "k": 2, "fmt": fmt, "kw": kwd})
+    # a long prelude of heuristic calls on large inputs (a process-wide counter or budget is spent by ANY earlier work)
+    bulk = [{"algo": "kk", "items": [(i * 37 + j) % 101 + 1 for i in range(9000 + j)], "k": 2, "out": "Sums"} for j in range(90 if q else 300)]
+    bulk += [{"algo": "kk", "items": [(i * 53 + j) % 211 + 1 for i in range(6000)], "k": 3 + j % 3, "out": "Sums"} for j in range(60 if q else 300)]
+    f2 = bulk + f2
     fam["balance+cg"] = f1; fam["kk-ckk-snp-rnp"] = f2; fam["dp"] = fdp; fam["cbldm"] = fcb
     filp = []
     for ms in spaces.multisets((1, 2, 3), 3, 3):
@@ -552,7 +566,7 @@ EXPLORER_STATS = None
 def bounds(tier):
     n = len(alphabet(tier))
     return {"alphabet": n, "depth-2 histories": n * n, "singletons": n, "chain length": n * n + 1,
-            "generator pairs": "all unordered pairs (with repetition) of 7 generator kinds, all interleavings of <=7 steps each",
+            "generator pairs": "all unordered pairs (with repetition) of 11 generator kinds (four of them enumerate on one shared bins-manager object per manager), all interleavings of <=7 steps each",
             "grid chains": {f: len(c) for f, c in grid_families(tier).items()},
             "sweep": "partition values 0..4, 1..4 items, k=1..3; packing all sequences 1..4 over 0..6 (B=6); covering multisets 1..5 over 1..9 (B=6); x list/array/dict"}
 
